@@ -11,6 +11,7 @@ import LbfgsbVerif.Generated.BenchF
 import LbfgsbVerif.Model.Compact
 import LbfgsbVerif.Model.Cauchy
 import LbfgsbVerif.Model.Subspace
+import LbfgsbVerif.Model.FD
 import Std.Data.HashMap
 
 open Lbfgsb
@@ -307,6 +308,16 @@ def handleShell (c : Ctx) (toks : List String) : Option (Ctx × List String) :=
     let r := subspaceMin { x, g, lb, ub, theta, W := w, Minv := minv, useFactor := uf == "1", epsFsec := 1e-30,
                            xc := xc, c := cc }
     some (c, [s!"subspace {showV r}"])
+  | ["fd", scheme, path, x, lb, ub, step, epsM, f0, vals] => do
+    let x ← parseV x; let lb ← parseV lb; let ub ← parseV ub
+    let epsM ← parseF epsM; let f0 ← parseF f0
+    let vals ← if vals == "_" then some [] else parseV vals
+    let sch := if scheme == "two" then FD.Scheme.two else FD.Scheme.three
+    let hOf : Float → Float ←
+      if path == "abs" then (do let e ← parseF step; some (fun xi => FD.step0 xi e epsM))
+      else if path == "rel" then (do let r ← parseF step; some (fun xi => FD.stepRel xi (some r) epsM))
+      else some (fun xi => FD.stepRel xi none epsM)
+    some (c, [s!"fd {showVs (FD.points sch hOf x lb ub)} {showV (FD.grad sch hOf x lb ub f0 vals)}"])
   | ["compact", xs, gs, v] => do
     let X ← parseVs xs; let G ← parseVs gs; let v ← parseV v
     let bc := compactBv X G v
